@@ -74,7 +74,7 @@ def run(ck):
         elif v == "agree":
             ck.traces += 1
             # the closed form used for the deep runs is validated against the model here
-            e = expected(p)
+            e = None if p.get("special") else expected(p)
             o = real[p["id"]]
             if e is not None and e != "overflow" and o["k"] == "ok":
                 got = dict((n, semcmp.canon(x)) for n, x in o["g"])["r"]
